@@ -129,6 +129,34 @@ func wholeCallRegion(e Expr) bool {
 	return false
 }
 
+// enumLate: expressions calling a registered function whose name is also a library built-in
+// with another arity (sum, round) - first evaluated while it is NOT registered, then registered
+// on the same engine; afterwards every position must use the registered function.
+func (g *gen) enumLate() []Case {
+	var out []Case
+	shapes := []Expr{
+		bin("+", call("sum", p("a"), li("1"), p("b")), li("1")), bin(">", call("sum", p("a"), li("1")), li("2")), call("isBig", call("sum", p("a"), li("1"), p("b"))),
+		bin("*", call("round", p("f"), li("1")), p("b")), bin(">", call("round", p("m.rate"), li("2")), lf("1.0")), call("half", call("round", p("f"), li("0"))),
+		{K: "tern", A: []Expr{bin(">", call("sum", p("b"), li("2")), li("4")), ls("Y", "s"), ls("N", "s")}},
+		bin("&&", bin(">=", call("round", p("g"), li("1")), lf("0.5")), p("t")),
+		call("sum", p("a"), li("1"), p("b")), call("round", p("f"), li("1")),
+		bin("+", call("greet", p("s")), ls("x", "d")), bin("&&", call("isBig", p("a")), p("t")), call("add", p("a"), li("1")),
+	}
+	for env := 0; env < nEnvs; env++ {
+		for _, x := range shapes {
+			if _, err := eval(x, envOf(env)); err != nil {
+				continue
+			}
+			xc := x
+			if c, ok := g.finishExpr(Case{Fam: "expr", Env: env, E: &xc}); ok {
+				c.Late = true
+				out = append(out, c)
+			}
+		}
+	}
+	return out
+}
+
 // enumExprLib: built-in and nested calls alone, under operators, and in ternaries.
 func (g *gen) enumExprLib() []Case {
 	var out []Case
